@@ -8,8 +8,11 @@ pub mod c05;
 pub mod c08;
 pub mod c09;
 pub mod c11;
+pub mod c15;
 pub mod c16;
 pub mod c17;
+pub mod c18;
+pub mod c19;
 pub mod script;
 pub mod util;
 
@@ -24,9 +27,12 @@ pub fn gen(prop: &str, tier: &str, seed: u64) -> Gen {
         "C05" => c05::gen(tier, seed),
         "C08" => c08::gen(tier, seed),
         "C09" => c09::gen(tier, seed),
+        "C15" => c15::gen(tier, seed),
         "C16" => c16::gen(tier, seed),
         "C11" => c11::gen(tier, seed),
         "C17" => c17::gen(tier, seed),
+        "C18" => c18::gen(tier, seed),
+        "C19" => c19::gen(tier, seed),
         _ => panic!("unknown property {}", prop),
     }
 }
@@ -39,9 +45,12 @@ pub fn run(prop: &str, case: &Term) -> Term {
         "C05" => c05::run(case),
         "C08" => c08::run(case),
         "C09" => c09::run(case),
+        "C15" => c15::run(case),
         "C16" => c16::run(case),
         "C11" => c11::run(case),
         "C17" => c17::run(case),
+        "C18" => c18::run(case),
+        "C19" => c19::run(case),
         _ => panic!("unknown property {}", prop),
     }
 }
